@@ -78,9 +78,25 @@ class Ctx:
 
     def run_tree(self, tree):
         try:
-            return self.encode(self.build(tree))
+            r = self.encode(self.build(tree))
         except Exception as e:  # noqa
             return {"r": "err", "e": errkind(e)}
+        # Boundary.__add__ is documented as the union of the two faces: B1 + B2 must be the same set as Union(B1, B2)
+        try:
+            from sympde.topology.basic import Boundary
+            kids = tree.get("node")
+            if kids and len(kids) == 2 and all("leaf" in k for k in kids):
+                a, b = (self.atoms[k["leaf"]] for k in kids)
+                if isinstance(a, Boundary) and isinstance(b, Boundary):
+                    try:
+                        r2 = self.encode(a + b)
+                    except Exception as e:  # noqa
+                        return {"r": "err", "e": "add:" + errkind(e)}
+                    if r2 != r:
+                        return {"r": "err", "e": "add-differs-from-union"}
+        except ImportError:
+            pass
+        return r
 
 
 def run_case(case):
